@@ -58,7 +58,10 @@ pub mod ext_time {
             Some(x) => nanos(x) == nanos(*i) + dur_ns(d) && nanos(x) <= instant_max(),
             None => nanos(*i) + dur_ns(d) > instant_max(),
         };
-    pub assume_specification [Instant::now] () -> (r: Instant);
+    /// the value has been returned by a clock read (monotone witness, DESIGN 2.12)
+    pub uninterp spec fn clock_read(i: Instant) -> bool;
+    pub assume_specification [Instant::now] () -> (r: Instant)
+        ensures clock_read(r);
     pub assume_specification [Instant::elapsed] (i: &Instant) -> (r: Duration);
 
     // ---- BinaryHeap
